@@ -124,9 +124,14 @@ def run_items(rep, binary, sub, items, label, shards, env=None, report=True, non
 def record(rep, binary, sub, n, seed, shards, label):
     hists, inconcl = [], 0
     with cf.ThreadPoolExecutor(max_workers=shards) as ex:
-        futs = [ex.submit(harness.run, binary, [sub, str(max(1, n // shards)), str(seed * 1000 + i)], None, 900) for i in range(shards)]
+        futs = [ex.submit(harness.run, binary, [sub, str(max(1, n // shards)), str(seed * 1000 + i)], None, 300) for i in range(shards)]
         for f in futs:
-            rc, outs, err = f.result()
+            try:
+                rc, outs, err = f.result()
+            except harness.InfraError as e:
+                # e.g. code under test that spins for ever: no quiescent point, the recorder cannot finish
+                rep.infra_error("%s recorder: %s" % (label, e))
+                continue
             if rc != 0:
                 if "github.com/tychoish/fun" in err and ("panic:" in err or "fatal error:" in err):
                     rep.violation(label + "/record/process-crash", "recorder died: " + err[-1200:], dict(kind="crash", stderr=err[-3000:]))
